@@ -1,8 +1,11 @@
 #!/usr/bin/env python3
-"""Apply every kept seeded change to /repo in turn, run the property's quick check, undo the change; prints one line per
-seed (caught / MISSED / patch does not apply) and writes seeded/REGRESSION.json.  /repo must be clean."""
+"""Apply every kept seeded change in turn to a scratch copy of /repo (tools/seedrun.py; /repo itself is never touched),
+run the property's quick check on the copy; prints one line per seed (caught / MISSED / patch does not apply) and
+writes seeded/REGRESSION.json.  /repo must be clean."""
 import json, os, subprocess, sys, glob, re
 V = "/verif"
+sys.path.insert(0, V + "/tools")
+from seedrun import check_with_patch  # noqa: E402
 def sh(cmd, **kw): return subprocess.run(cmd, shell=True, capture_output=True, text=True, **kw)
 if sh("git -C /repo status --porcelain").stdout.strip():
     print("refusing: /repo is not clean"); sys.exit(2)
@@ -13,24 +16,19 @@ for d in sorted(glob.glob(V + "/seeded/C*")):
     pid = name.split("-")[0]
     if only and pid not in only and name not in only: continue
     patch = d + "/patch.diff"
-    a = sh(f"git -C /repo apply --check {patch}")
-    if a.returncode != 0:
-        res[name] = {"status": "patch-does-not-apply", "detail": a.stderr.strip()[:300]}
-        print(name, "PATCH DOES NOT APPLY", a.stderr.strip()[:120]); continue
-    sh(f"git -C /repo apply {patch}")
-    evf = f"{V}/evidence/{pid}.json"
-    evsave = open(evf).read() if os.path.exists(evf) else None
-    try:
-        r = sh(f"cd {V} && timeout 1500 python3 tools/check.py {pid} --tier quick")
-    finally:
-        sh("git -C /repo checkout -- . && git -C /repo clean -fdq -- cmd 2>/dev/null")
-        if evsave is not None:   # the evidence file describes runs on the unchanged tree only
-            open(evf, "w").write(evsave)
-    lines = [l for l in r.stdout.splitlines() if not l.startswith("KNOWN-FINDING")]
+    st, rc, out = check_with_patch(pid, patch, "quick", 1500)
+    if st != "ran":
+        res[name] = {"status": "patch-does-not-apply", "detail": out.strip()[:300]}
+        print(name, "PATCH DOES NOT APPLY", out.strip()[:120]); continue
+    lines = [l for l in out.splitlines() if not l.startswith("KNOWN-FINDING")]
     viol = [l for l in lines if l.startswith("VIOLATION")]
     broken = [l.strip() for l in lines if l.strip().startswith("broken:")]
-    status = "caught" if r.returncode == 1 and viol else "MISSED"
-    res[name] = {"status": status, "exit": r.returncode, "violation": viol[:1], "broken": broken}
+    status = "caught" if rc == 1 and viol else "MISSED"
+    res[name] = {"status": status, "exit": rc, "violation": viol[:1], "broken": broken}
     print(name, status, "|", "; ".join(b.replace("broken: ", "") for b in broken)[:200])
-json.dump(res, open(V + "/seeded/REGRESSION.json", "w"), indent=1)
+allres = {}
+if only and os.path.exists(V + "/seeded/REGRESSION.json"):      # a partial run updates its own entries only
+    allres = json.load(open(V + "/seeded/REGRESSION.json"))
+allres.update(res)
+json.dump(allres, open(V + "/seeded/REGRESSION.json", "w"), indent=1)
 sys.exit(0 if all(v["status"] == "caught" for v in res.values()) else 1)
